@@ -269,6 +269,128 @@ def gen_exact_case(pyrng):
     return c
 
 
+def hausdorff(a, b):
+    a, b = np.asarray(a), np.asarray(b)
+    if len(a) == 0 or len(b) == 0:
+        return 0.0 if len(a) == len(b) else float("inf")
+    d = np.abs(a[:, None] - b[None, :])
+    return float(max(d.min(axis=1).max(), d.min(axis=0).max()))
+
+
+def gen_weak_coupling(pyrng):
+    """arnoldi_eigs on two subsystems with a weak one-way coupling (block lower triangular: spectrum = eig(A11) u eig(A22) whatever
+    the coupling), start vector supported on the first block, max_iters >= n.  Couplings 1e-13..1e-3 and tolerances 1e-14..1e-3 in all
+    combinations: when the tolerance resolves the coupling the Krylov space grows through it and the spectrum of A must come back;
+    float64, and float32 operators (with float32 or float64 start vectors) for couplings a float32 run can resolve"""
+    g = np.random.default_rng(pyrng.getrandbits(64))
+    n1, n2 = int(g.integers(2, 6)), int(g.integers(2, 7)); n = n1 + n2
+    f32 = bool(g.random() < 0.25)
+    eps = float(10.0 ** (-g.integers(3, 5))) if f32 else float(10.0 ** (-g.integers(3, 14)))
+    tol = float(g.choice([1e-7, 1e-6])) if f32 else float(10.0 ** (-g.integers(3, 15)))
+    A = np.zeros((n, n))
+    A[:n1, :n1] = g.standard_normal((n1, n1)) + 3.0 * np.eye(n1)
+    A[n1:, n1:] = g.standard_normal((n2, n2)) - 2.0 * np.eye(n2)
+    A[n1:, :n1] = eps * g.standard_normal((n2, n1))
+    v = np.zeros(n); v[:n1] = g.standard_normal(n1)
+    c = dict(kind="dense", cplx=False, n=n, n1=n1, coupling=eps, start="block1", batch=0, grades=[n], max_iters=int(g.choice([n, n, n + 3])),
+             tol=tol, entry="arnoldi_eigs", family="weak_coupling")
+    if f32:
+        A = A.astype(np.float32).astype(np.float64)
+        c["op_f32"] = True
+        if g.random() < 0.5:
+            v = v.astype(np.float32).astype(np.float64); c["v_f32"] = True
+    c["parts"] = [enc(A)]; c["v"] = enc(v[None, :])
+    return c
+
+
+def oracle_eigs(c, obs):
+    """clauses about arnoldi_eigs on the weak-coupling stream (dtype aware): (i) its values are the eigenvalues of the square part of
+    the H that arnoldi returns for the same arguments; (ii) when the tolerance resolves the coupling (the remainder at the block
+    boundary, computed here independently, is >= 100 tol ||A q_0|| and well above rounding noise) n values come back and they are
+    the spectrum of A"""
+    if not obs.get("ok"):
+        return ["raised " + obs.get("err", "")]
+    bad = []
+    S = np.asarray(dense_of(c), dtype=float)
+    n, n1 = c["n"], c["n1"]
+    f32 = bool(c.get("op_f32") and c.get("v_f32"))             # arithmetic in float32 only when both are float32
+    epsm = 6e-8 if f32 else 1.1e-16
+    scale = np.abs(S).max()
+    w = dec(obs["eigs"])
+    H = dec(obs["H"][0]).T
+    ref = np.linalg.eigvals(H[:-1]) if H.shape[1] else np.zeros(0)
+    if len(w) != len(ref) or hausdorff(w, ref) > (1e-3 if f32 else 1e-8) * scale:
+        bad.append(f"arnoldi_eigs(tol={c['tol']}) is not eig of the square part of H returned by arnoldi(tol={c['tol']}) "
+                   f"(distance {hausdorff(w, ref):.3g}, {len(w)} vs {len(ref)} values)")
+    # independent Arnoldi (two re-orthogonalisation passes) up to the block boundary
+    v = dec(c["v"])[0].real
+    U = np.zeros((n, 0)); q = v / np.linalg.norm(v); r = None
+    aq0 = np.linalg.norm(S @ q)
+    for j in range(n1):
+        U = np.concatenate([U, q[:, None]], 1)
+        x = S @ q
+        for _ in range(2):
+            x = x - U @ (U.T @ x)
+        r = np.linalg.norm(x)
+        if j < n1 - 1:
+            if r < 1e-6 * scale:
+                return bad                                   # the first block itself is (nearly) degenerate for this start: nothing to demand
+            q = x / r
+    noise = epsm * scale * n
+    if r is not None and r > 100.0 * c["tol"] * aq0 and r > 1e3 * noise:
+        lam = np.linalg.eigvals(S)
+        if len(w) != n:
+            bad.append(f"arnoldi_eigs with max_iters >= n returned {len(w)} eigenvalues for an operator of size {n}")
+        elif hausdorff(w, lam) > (1e-2 if f32 else 1e-6) * scale:
+            bad.append(f"arnoldi_eigs with max_iters >= n and tol={c['tol']} (coupling remainder {r:.3g} = {r / (c['tol'] * aq0):.3g} x tol*||A q_0||) "
+                       f"does not return the spectrum of A (distance {hausdorff(w, lam):.3g})")
+    return bad
+
+
+def gen_illcond(pyrng):
+    """larger non-normal operators with a rapidly decaying spectrum (1 .. 1e-8/1e-10/1e-12) and 30..60 Arnoldi steps: the Krylov
+    sequence becomes ill conditioned, the regime where the way a new vector is orthogonalised matters (single-pass modified
+    Gram-Schmidt loses orthogonality like eps*cond, other orders like eps*cond^2).  Oracle only (orthonormality against what an
+    independent MGS loses on the same input, relation, Hessenberg form, first column)."""
+    g = np.random.default_rng(pyrng.getrandbits(64))
+    n = int(g.choice([40, 64, 80, 100]))
+    cplx = bool(g.random() < 0.25)
+    X = g.standard_normal((n, n)) + (1j * g.standard_normal((n, n)) if cplx else 0)
+    A = X @ np.diag(np.logspace(0, -float(g.choice([8, 10, 12])), n)) @ np.linalg.inv(X)
+    v = np.ones(n) if g.random() < 0.5 else g.standard_normal(n)
+    m = int(g.choice([m_ for m_ in (30, 40, 50, 60) if m_ < n]))
+    return dict(kind="dense", cplx=cplx, parts=[enc(A)], n=n, start="illcond", batch=0, grades=[n], v=enc((v + 0j)[None, :]),
+                max_iters=m, tol=float(g.choice([1e-12, 1e-14])), entry="arnoldi", family="illcond")
+
+
+def gen_constant_recurrence(pyrng, n=None):
+    """exact inputs whose Arnoldi recurrence has a CONSTANT sub-diagonal: cyclic shifts, companion matrices and non-symmetric
+    tridiagonal Toeplitz matrices started from e_1: the remainder norm (the quantity the loop tracks) is the same number bit for
+    bit at every step and the Krylov space is only exhausted at step n.  Sizes and step counts straddle 10, 50 and 100."""
+    g = np.random.default_rng(pyrng.getrandbits(64))
+    n = int(n or g.integers(5, 17))
+    fam = str(g.choice(["shift", "shiftperm", "companion", "toeplitz_ns"]))
+    c = dict(start="exact", family=fam, cplx=False, n=n, batch=0, grades=[n])
+    sc = float(g.choice([1.0, 2.0, -0.5]))
+    if fam == "shiftperm":
+        perm = np.roll(np.arange(n), 1)                      # P[i, j] = [j == perm[i]]: P e_j = e_{j+1}
+        c.update(kind="perm", parts=[[int(x) for x in perm]])
+    elif fam == "shift":
+        c.update(kind="dense", parts=[enc(sc * np.eye(n)[np.roll(np.arange(n), 1)])])
+    elif fam == "companion":
+        M = np.zeros((n, n)); M[1:, :-1] = sc * np.eye(n - 1); M[:, -1] = g.integers(-3, 4, n)
+        c.update(kind="dense", parts=[enc(M)])
+    else:
+        a, b, lo = float(g.choice([0.0, 2.0, -1.0])), float(g.choice([1.0, -2.0, 0.5])), float(g.choice([1.0, -1.0, 2.0, 0.5]))
+        c.update(kind="dense", parts=[enc(a * np.eye(n) + b * np.eye(n, k=1) + lo * np.eye(n, k=-1))])
+    v = np.zeros(n); v[0] = float(g.choice([1.0, -1.0, 2.0, -0.5]))
+    c["v"] = enc(v[None, :])
+    c["max_iters"] = int(g.choice([n, n, n + 1, n - 1, 5, 8, max(1, n // 2)]))
+    c["tol"] = float(g.choice([0.0, 1e-7, 1e-7, 1e-12, 0.25]))
+    c["entry"] = str(g.choice(["arnoldi", "arnoldi", "Arnoldi()", "arnoldi_eigs"]))
+    return c
+
+
 def coq_elem_cases(c, obs, capped=False, rfix=False, cfix=False, afix=False):
     """one single-start Coq case per batch element (element b of the batched call against the run on v_b alone)"""
     S = dense_of(c)
@@ -356,6 +478,8 @@ def build_op(c):
 def start_of(c):
     V = dec(c["v"])
     V = V if c["cplx"] else V.real
+    if c.get("v_f32"):
+        V = V.astype(np.float32)
     return V[0].copy() if c["batch"] == 0 else np.ascontiguousarray(V.T)
 
 
@@ -554,6 +678,12 @@ def oracle(c, obs, present=frozenset()):
                 lastcol = n if garbage_ok else n + 1
                 if np.abs(Q[:, :lastcol] - Qn[:, :lastcol]).max() > 1e-12 or np.abs(H[:n + 1, :n] - Hn).max() > 1e-12 * max(1, scale):
                     bad.append(tag + "leading part differs from the n-step factorisation")
+    if "eigs" in obs and obs.get("H") and not c["batch"]:
+        Hs = dec(obs["H"][0]).T
+        ref = np.linalg.eigvals(Hs[:-1]) if Hs.shape[1] else np.zeros(0)
+        we = dec(obs["eigs"])
+        if len(we) != len(ref) or hausdorff(we, ref) > 1e-8 * max(scale, np.abs(Hs).max(initial=0.0)):
+            bad.append("arnoldi_eigs values are not the eigenvalues of the square part of the H that arnoldi returns for the same arguments")
     if "eigs" in obs and not bad:
         w = dec(obs["eigs"]); Y = dec(obs["eigvecs"]).T
         if m > n and "arnoldi_padding" in present:
